@@ -6,7 +6,7 @@ import itertools
 from .. import core
 from ..core import Prop, Violation
 from ._coord import (CoordMixin, gen_cfg, gen_exec, gen_multi_kill, gen_ended_in_callback, gen_two_systems, gen_nest,
-                     gen_cnest, cnest_table, gen_tracked, CP_SCRIPTS)
+                     gen_cnest, cnest_table, gen_tracked, request_kind_table, CP_SCRIPTS, DAY, HOUR)
 
 FINDING = "C14-work-after-kill-in-g1-checkpoint"
 
@@ -105,7 +105,7 @@ class C14(CoordMixin, Prop):
             yield gen_tracked(rng)
         # timeout boundaries: below / at / above each limit
         for i in range(max(6, n // 100)):
-            L = rng.choice([1, 5, 10])
+            L = rng.choice([1, 5, 10, DAY, DAY + HOUR])       # also limits of a day and more (timedelta.seconds is only the remainder)
             which = rng.randrange(3)
             cfg = ["none", "none", "none"]
             cfg[which] = str(L)
@@ -193,9 +193,12 @@ class C14(CoordMixin, Prop):
                         lines.append("exec 1 3 1,2 bbbb n:ok yes")
                         cases.append({"lines": lines, "note": "exhaustive"})
         cases += cnest_table()
+        cases += request_kind_table()
         return [{"name": f"request lists of length <= {L} over 2 resources x foreign-holder patterns x every fault "
                          f"position, followed by a second operation; search-only: a nested operation started from every "
-                         f"callback position x cell / execute_operation layers x same / other agent", "cases": cases}]
+                         f"callback position x cell / execute_operation layers x same / other agent; the request passed as every "
+                         f"iterable type (list, tuple, generator, iterator, map, filter, dict keys view, deque, list subclass) "
+                         f"x request shapes x holders x both layers", "cases": cases}]
 
     # --- oracle: the property text on the implementation's observations ------------------------------------
     def oracle(self, case, obs, extra):
@@ -259,7 +262,8 @@ class C14(CoordMixin, Prop):
                     + [e.split(":")[0] for e in t[6].split("@")[1:]]
                 act = "n" if all(a == "n" for a in acts) else "some"
                 if prev is not None:
-                    req = [] if t[3] in ("-", "none") else t[3].split(",")
+                    rtok = t[3].split("~")[0]          # `~<kind>`: the type of the iterable the request is passed as
+                    req = [] if rtok in ("-", "none") else rtok.split(",")
                     prio = int(t[2])
                     for r, l0 in prev["locks"].items():
                         l1 = st["locks"].get(r)
